@@ -302,6 +302,17 @@ def dispatch(eng, st, body, callee, args):
         a, b = num2(eng, st, args)
         if is_conc(a) and is_conc(b):
             return _o(st, Enum("Option", 1, [Enum("Ordering", 0 if a < b else (1 if a == b else 2), ())]))
+        if is_scalar(a) and is_scalar(b):
+            # symbolic: one outcome per feasible ordering
+            from engine import Outcome
+            za, zb = to_z3(a), to_z3(b)
+            outs = []
+            for k, cnd in ((0, za < zb), (1, za == zb), (2, za > zb)):
+                if eng.feasible(st, cnd):
+                    s2 = st.fork()
+                    s2.assume(cnd)
+                    outs.append(Outcome(s2, "ret", Enum("Option", 1, [Enum("Ordering", k, ())])))
+            return outs
         raise Unsupported("symbolic partial_cmp")
     if T in NUMERIC_T and Tr == "Ord" and meth in ("max", "min", "cmp"):
         a, b = num2(eng, st, args)
@@ -317,6 +328,23 @@ def dispatch(eng, st, body, callee, args):
         a, b = num2(eng, st, args)
         if is_scalar(a) and is_scalar(b):
             return _o(st, eng.binop(st, CMP[meth], a, b))
+    if Tr == "PartialOrd" and meth in ("lt", "le", "gt", "ge") and len(args) == 2:
+        a0 = eng.deref_all(st, args[0])
+        if isinstance(a0, (Struct, Enum)) and a0.ty not in ("()",):
+            # provided methods of core::cmp::PartialOrd on a crate type: through its (derived) partial_cmp
+            nm = eng.mir.resolve(f"<{a0.ty} as PartialOrd>::partial_cmp")
+            if nm is not None:
+                from engine import Outcome
+                want = {"lt": (0,), "le": (0, 1), "gt": (2,), "ge": (1, 2)}[meth]
+                outs = []
+                for o in eng.exec_body(st, eng.mir.bodies[nm], args):
+                    if o.kind != "ret":
+                        outs.append(o)
+                        continue
+                    v = o.val
+                    res = isinstance(v, Enum) and v.ty == "Option" and v.variant == 1 and isinstance(v.fields[0], Enum) and v.fields[0].variant in want
+                    outs.append(Outcome(o.st, "ret", res))
+                return outs
     if Tr in ("PartialOrd", "Ord") and meth in ("partial_cmp", "cmp") and len(args) == 2:
         a, b = num2(eng, st, args)
         if meth == "partial_cmp" and (_is_nan(a) or _is_nan(b)) and (_is_nan(a) or is_scalar(a) or _inf_tag(a)) and (_is_nan(b) or is_scalar(b) or _inf_tag(b)):
